@@ -65,6 +65,7 @@ T_OPT_TENANT = r'^core::option::Option<kyrodb_server::TenantContext>$'
 T_STRMAP = r'^std::collections::hash::map::HashMap<alloc::string::String, alloc::string::String>$'
 T_IDS = r'^alloc::vec::Vec<u64>$'
 NEW_VEC = r'^Vec::(with_capacity|new)\('
+KEY_TABLE = r'^std::collections::hash::map::HashMap<alloc::string::String, kyrodb_engine::auth::TenantInfo>$'
 
 
 def bind_each(body, role, type_rx, origin_rx, used_as=None):
@@ -761,6 +762,18 @@ def run(ctx, prog):
             continue
         of10 = flow.Origin(b)
         for c in b.calls:
+            if c.callee and flow.short(c.callee) == 'Iterator::collect' and c.args and c.ga and re.match(KEY_TABLE, c.ga[-1]):
+                # the table built without an explicit insert: entries.into_iter().map(|entry| (key, value)).collect::<HashMap<String, TenantInfo>>() inserts
+                # every pair the closure returns; the pair must be (entry.key, entry.tenant_info) of the closure's own argument
+                n10 += 1
+                src = flow.render(of10.of_operand(c.args[0]))
+                mc = re.match(r'^Iterator::map\(.*, closure:[^,]*(\{closure#\d+\})\{[^{}]*\}\)$', src)
+                clo = prog.bodies.get(b.id + '::' + mc.group(1)) if mc else None
+                pair = flow.render(flow.Origin(clo).of_local(0)) if clo is not None else ''
+                k10 = sum(1 for x in ctx.instances if x.get('config') == ctx.config and x['rule'] == 'C10.R10' and x['key'].startswith('C10.R10 | %s | key table insert' % b.short))
+                ctx.inst('C10.R10', b.short, 'key table insert #%d stores the TenantInfo declared with the key' % k10,
+                         bool(re.match(r'^tuple\{(arg:\w+)→ApiKeyEntry\.key, \1→ApiKeyEntry\.tenant_info\}$', pair)), 'collect(%s) with pairs %s' % (src[-90:], pair[:110] or '?'))
+                continue
             if not (c.callee and re.search(r'HashMap(<.*>)?::insert$', flow.short(c.callee)) and len(c.args) == 3):
                 continue
             if 'TenantInfo' not in b.locals[c.args[2]['pl']['l']] if c.args[2].get('k') in ('mv', 'cp') else True:
@@ -780,8 +793,8 @@ def run(ctx, prog):
     ctx.floor('C10.R10', 'insertions into the key table', n10, 2, 'load_from_file, add_key')
     lf = ctx.body('C10.R10', 'AuthManager::load_from_file')
     if lf is not None:
-        # keys: the key table this function builds from the file (created empty here)
-        util.bind_role(lf, 'keys', type_rx=r'^std::collections::hash::map::HashMap<alloc::string::String, kyrodb_engine::auth::TenantInfo>$', origin_rx=r'^HashMap::(new|with_capacity)\(')
+        # keys: the key table this function builds from the file (created empty here and filled, or collected)
+        util.bind_role(lf, 'keys', type_rx=KEY_TABLE, origin_rx=r'^(HashMap::(new|with_capacity)|Iterator::collect)\(')
         ov10 = flow.Origin(lf, stop_at_vars=True)
         inst = []
         for i_, blk in enumerate(lf.blocks):
